@@ -29,6 +29,8 @@ type ConnSpec struct {
 	Transport string  `json:"transport"`
 	Traffic   bool    `json:"traffic"`
 	Causes    []Cause `json:"causes"`
+	// CloseInOpen: the open callback itself closes the connection (accept/add births)
+	CloseInOpen bool `json:"close_inside_onopen,omitempty"`
 }
 
 type Case struct {
@@ -212,6 +214,7 @@ type liveConn struct {
 func runCase(c Case) vlib.Result {
 	res := vlib.Result{Classes: []string{"mode=" + c.Mode}}
 	var dataCalls int64
+	var refuseNext int32
 	rec := &record{opens: map[*nbio.Conn]int64{}, closes: map[*nbio.Conn][]error{}, closeAt: map[*nbio.Conn]int64{}}
 	conf := nbio.Config{NPoller: c.NPoller, MaxWriteBufferSize: 64 * 1024, AsyncReadInPoller: c.Async}
 	vlib.ApplyMode(&conf, c.Mode)
@@ -240,7 +243,12 @@ func runCase(c Case) vlib.Result {
 			cf.UDPReadTimeout = 10 * time.Second
 		}
 		g := nbio.NewEngine(cf)
-		g.OnOpen(rec.open)
+		g.OnOpen(func(conn *nbio.Conn) {
+			rec.open(conn)
+			if atomic.CompareAndSwapInt32(&refuseNext, 1, 0) {
+				_ = conn.Close()
+			}
+		})
 		g.OnClose(rec.close)
 		g.OnData(func(*nbio.Conn, []byte) { atomic.AddInt64(&dataCalls, 1) })
 		return g, g.Start()
@@ -316,6 +324,10 @@ func runCase(c Case) vlib.Result {
 	for i, cs := range c.Conns {
 		lc := &liveConn{spec: cs, idx: i}
 		lcs = append(lcs, lc)
+		if cs.CloseInOpen && (cs.Birth == "add" || cs.Birth == "accept") {
+			atomic.StoreInt32(&refuseNext, 1)
+			res.Classes = append(res.Classes, "cause=close-inside-onopen")
+		}
 		switch cs.Birth {
 		case "add":
 			a, peer, err := vlib.StreamPair(cs.Transport, 4096, 4096)
@@ -324,8 +336,11 @@ func runCase(c Case) vlib.Result {
 			}
 			lc.peer = peer
 			lc.nbc, err = engines["main"].AddConn(a)
-			if err != nil {
+			if err != nil && !cs.CloseInOpen {
 				return vlib.Fail("harness: AddConn: %v", err)
+			}
+			if err != nil {
+				lc.nbc = nil // refused inside OnOpen; the global open/close balance below still covers it
 			}
 		case "accept":
 			g := engines[cs.Transport]
@@ -684,7 +699,7 @@ func runCase(c Case) vlib.Result {
 				allow["nil"] = true
 			}
 		}
-		if c.Stop || len(lc.spec.Causes) == 0 {
+		if c.Stop || len(lc.spec.Causes) == 0 || lc.spec.CloseInOpen {
 			allow["nil"] = true
 		}
 		got := errClass(closes[0])
@@ -698,7 +713,18 @@ func runCase(c Case) vlib.Result {
 		}
 		res.Classes = append(res.Classes, "closeerr="+got)
 	}
-	// opened connections nobody asked about (must also be closed exactly once by Stop)
+	// every connection that got an open notification has exactly one close notification once the
+	// engines are stopped (whoever closed it, including the open callback itself)
+	for conn, o := range rec.opens {
+		if n := len(rec.closes[conn]); n != 1 {
+			res.Err = fmt.Errorf("a connection (%v, open seq %d) got %d close notifications by the time its engine had stopped", conn.RemoteAddr(), o, n)
+			return res
+		}
+		if rec.closeAt[conn] < o {
+			res.Err = fmt.Errorf("a connection (%v) got its close notification before its open notification", conn.RemoteAddr())
+			return res
+		}
+	}
 	for conn, cl := range rec.closes {
 		if len(cl) > 1 {
 			res.Err = fmt.Errorf("a connection (%v) got %d close notifications", conn.RemoteAddr(), len(cl))
@@ -742,6 +768,9 @@ func gen(t *rapid.T) Case {
 			cs.Transport = "tcp"
 		}
 		cs.Traffic = rapid.Bool().Draw(t, "traffic")
+		if (cs.Birth == "add" || cs.Birth == "accept") && rapid.IntRange(0, 5).Draw(t, "closeinopen") == 0 {
+			cs.CloseInOpen = true
+		}
 		nc := rapid.IntRange(0, 3).Draw(t, "ncauses")
 		kinds := []string{"close", "close", "closeerr", "closeerr", "peerclose", "peerreset", "readdl", "writedl", "writetoreset", "overflow"}
 		if cs.Birth == "udp" {
